@@ -87,7 +87,11 @@ func (t *TimerBasedElectionTrigger) Stop() {
 }
 
 func (t *TimerBasedElectionTrigger) CalcTimeout(view primitives.View) time.Duration {
-	timeoutMultiplier := time.Duration(int64(math.Pow(TIMEOUT_EXP_BASE, float64(view))))
+	multiplier := math.Pow(TIMEOUT_EXP_BASE, float64(view))
+	if t.minTimeout > 0 && multiplier*float64(t.minTimeout) >= float64(math.MaxInt64) {
+		return time.Duration(math.MaxInt64) // saturate: the product does not fit (it used to wrap to negative or zero)
+	}
+	timeoutMultiplier := time.Duration(int64(multiplier))
 	return timeoutMultiplier * t.minTimeout
 }
 
